@@ -850,6 +850,25 @@ def _judge_story(pre, post, m, raised, mos_warns, D, v):
         if op == 'send':
             refs = [m.story_ref]
         nothing_resolves = bool(refs) and not any(r[0] == 'id' and r[1] in known for r in refs)
+        # ... and a message that names none of the repeated (or ID-less) stories - every reference resolves to
+        # an ID that occurs once, nothing it carries bears an existing ID - leaves those stories alone and,
+        # when it returns, has been applied in full: nothing to report
+        cnt_ = Counter(L)
+        car_ = [sid(c) for c in m.carried] if op not in ('send',) else []
+        names_no_repeat = (op == 'append' or (bool(refs) and all(r[0] == 'id' and cnt_.get(r[1], 0) == 1 for r in refs))) \
+            and all(i is not None and i not in cnt_ for i in car_) and len(set(car_)) == len(car_) and op != 'send'
+        if names_no_repeat and not raised:
+            rep_ = {i for i, c_ in cnt_.items() if c_ > 1 or i is None}
+            pre_rep = [c_ for i, c_ in zip(L, pre.story_canons) if i in rep_]
+            post_rep = [c_ for i, c_ in zip(post_ids, post.story_canons) if i in rep_]
+            v.sig = ('ooc-dup-stories', kind, 'names-none-of-the-repeated')
+            if pre_rep != post_rep:
+                D.append(Dev('C03', 'unnamed-stories-with-repeated-ids-changed',
+                             {'kind': kind, 'pre': L, 'post': post_ids, 'target': m.target, 'sources': m.sources}))
+            if mos_warns:
+                D.append(Dev('C06', 'warning-on-fully-applied',
+                             {'kind': kind, 'warns': dict(Counter(mos_warns)), 'pre': L, 'post': post_ids,
+                              'why': 'the message names none of the repeated story IDs and every reference resolves'}))
         if op == 'delete' and not raised and not nothing_resolves:
             _multiset_delete(L, post_ids, m.sources, mos_warns, SNF, kind, D)
         if nothing_resolves and not raised:
